@@ -35,6 +35,7 @@ func init() {
 	feature("goroutines", featGoroutines)
 	feature("errors", featErrors)
 	feature("tests", featTests)
+	feature("methparam", featMethodStructParam)
 }
 
 // d merges name tables and extra values for templates.
@@ -1038,6 +1039,73 @@ func «.fn»(args []string) {
 		r, gerr := «.q»«.Guard»(v)
 		fmt.Println("errs", v, err, errors.Is(err, «.q»«.ErrSentinel»), code, r, gerr)
 	}
+}
+`, d(n, map[string]string{"fn": fn, "q": q}))
+}
+
+// featMethodStructParam: exported methods that take named structs by value, by pointer, in
+// slices and as results, in a package that (transitively) imports reflect. None of these types
+// reaches reflection, so every name must be obfuscated.
+func featMethodStructParam(g *Gen) {
+	p := g.lib()
+	n := g.names(p, "Order=type,E", "Ident=field,u", "Amount=field,E", "Detail=type,E", "Code=field,E", "note=field,u", "DetailF=field,E",
+		"Ledger=type,E", "total=field,u", "Post=emethod,E", "PostAll=emethod,E", "PostPtr=emethod,E", "Last=emethod,E", "NewOrder=func,E", "Sink=var,E")
+	f := g.newFile(p, "methparam")
+	f.std("fmt")
+	f.add(`
+type «.Detail» struct {
+	«.Code» int
+	«.note» string
+}
+
+type «.Order» struct {
+	«.Ident»   int
+	«.Amount»  int
+	«.DetailF» «.Detail»
+}
+
+type «.Ledger» struct{ «.total» int }
+
+var «.Sink» any = «.Order»{}
+
+//go:noinline
+func «.NewOrder»(id, amount int) «.Order» {
+	return «.Order»{«.Ident»: id, «.Amount»: amount, «.DetailF»: «.Detail»{«.Code»: id * 2, «.note»: fmt.Sprint("n", id)}}
+}
+
+// an exported method with a named struct passed by value
+//
+//go:noinline
+func (l *«.Ledger») «.Post»(o «.Order») int {
+	l.«.total» += o.«.Amount» + o.«.DetailF».«.Code» + len(o.«.DetailF».«.note»)
+	return l.«.total»
+}
+
+//go:noinline
+func (l *«.Ledger») «.PostPtr»(o *«.Order», d «.Detail») int { return l.«.Post»(*o) + d.«.Code» }
+
+//go:noinline
+func (l *«.Ledger») «.PostAll»(os []«.Order», extra [2]«.Detail») int {
+	for _, o := range os {
+		l.«.Post»(o)
+	}
+	return l.«.total» + extra[1].«.Code»
+}
+
+//go:noinline
+func (l «.Ledger») «.Last»() «.Order» { return «.NewOrder»(l.«.total», 1) }
+`, n)
+	mf, fn := g.mainFeat("methparam")
+	mf.std("fmt")
+	q := mf.use(p, g.R)
+	mf.add(`
+func «.fn»(args []string) {
+	var l «.q»«.Ledger»
+	o := «.q»«.NewOrder»(len(args)+1, 20)
+	a := l.«.Post»(o)
+	b := l.«.PostPtr»(&o, «.q»«.Detail»{«.Code»: 3})
+	c := l.«.PostAll»([]«.q»«.Order»{o, o}, [2]«.q»«.Detail»{})
+	fmt.Println("methparam", a, b, c, l.«.Last»().«.Amount», «.q»«.Sink» != nil)
 }
 `, d(n, map[string]string{"fn": fn, "q": q}))
 }
